@@ -2,8 +2,8 @@
    Only ExtrOcamlBasic's directives are used; numbers stay as extracted inductives. *)
 Require Extraction.
 Require Import ExtrOcamlBasic.
-From RxModel Require Import Derived Ops2 Subject GroupBy Flatten Timed Async.
-From RxSpec Require Import DerivedSpec Ops2Spec SubjectSpec BehaviorSpec GroupBySpec FlattenSpec TimedSpec.
+From RxModel Require Import Derived Ops2 Subject GroupBy Flatten Timed Async Subscr.
+From RxSpec Require Import DerivedSpec Ops2Spec SubjectSpec BehaviorSpec GroupBySpec FlattenSpec TimedSpec SubscrSpec.
 Extraction Language OCaml.
 Extraction "model.ml"
   apply_fn apply_fn2 pred_of opt_of
@@ -13,5 +13,6 @@ Extraction "model.ml"
   srun subj0 arun asub0 size_ok brun bsubj0 abrun sops_of
   run_group_by first_keys group_trace announced flattened outer_term announced_first items_of term_of term_evs val_eqb
   run_flatten downstream peak_ok subs_increasing completion_ok silent_after_unsub
-  run_timed raw_ok timed_ok prompt_case remaining
-  run_async yields pendings.
+  run_timed raw_ok timed_ok prompt_case remaining closed_sound_ok
+  run_async yields pendings
+  crun cstate0 alg_ok.
